@@ -2,6 +2,7 @@
 import json
 import os
 import random
+import re
 import time
 
 from .. import common as C
@@ -38,6 +39,9 @@ INSTANCES = {
 
 
 def make_instance(name, params=None):
+    m = re.match(r"^gen(\d+)x(\d+)$", name)
+    if m:
+        name = "gen:%s:%s" % m.groups()      # the name a replay file records
     if name.startswith("gen:"):
         # "gen:<seed>:<number of workers>": a generated suite (random setup DAG with removable states, vf/parse/gensuite.py), parsed on demand
         from ..parse import gensuite as G, props as PP
